@@ -1,3 +1,4 @@
+import os
 from vf import Query, MPZ_BASE, G, MPN_LIN
 LEVEL = "model_checking"
 MUL = [G + x + ".c" for x in ("mul_1", "addmul_1", "submul_1", "mul_basecase", "mul", "mul_n")]
@@ -47,9 +48,11 @@ def _mpz(ctx, qs, add, quick):
     for fn, nm in ((3, "addmul"), (4, "submul")):
         for su in range(-K, K + 1):
             for sv in range(-K, K + 1):
-                if quick and (su, sv) not in ((1, 1), (1, -1), (-1, 1), (-1, -1), (2, 1), (-2, 1), (1, -2), (0, 1), (-1, 0)):
+                if quick and (su, sv) not in ((1, 1), (1, -1), (-1, 1), (-1, -1), (2, 1), (1, -2), (0, 1), (-1, 0)):
                     continue
                 for sw in range(-K - 1, K + 2):
+                    if quick and (abs(sw) > 2 or (abs(su) + abs(sv) == 3 and abs(sw) > 1)):
+                        continue
                     for al in (0, 3):
                         if al == 3 and sv != su:
                             continue
@@ -59,10 +62,25 @@ def _mpz(ctx, qs, add, quick):
     for fn, nm in ((5, "addmul_ui"), (6, "submul_ui")):
         for su in range(-K, K + 1):
             for sw in range(-K - 1, K + 2):
-                if quick and abs(su) == 2 and abs(sw) > 1:
+                if quick and (abs(sw) > 2 or (abs(su) == 2 and abs(sw) > 1)):
                     continue
                 add("mpz_%s.su%d.sw%d" % (nm, su, sw), "C01_mpz_mul.c", base, {"SU": "(%d)" % su, "SV": "1", "SW": "(%d)" % sw, "ALIAS": 0, "AW": 0, "FN": fn},
                     abs(su) + abs(sw) + 6, ["mpz/aorsmul_i.c:mpz_" + nm], variant="ufc+ufr")
+
+FFT_BASE = ["tal-reent.c", "memory.c", "assert.c", "errno.c"]
+FFT_STUBS = ["TMP_BALLOC_MP_PTRS -> static word array of recorded length (unit included into the harness)", "mpir_fft_split_bits, mpir_fft_combine_bits, mpir_fft_trunc_sqrt2, mpir_ifft_trunc_sqrt2, mpn_normmod_2expp1, mpn_mulmod_2expp1_basecase, mpn_div_2expmod_2expp1, mpn_zero -> contract stubs (harness/C01_fft_param.c)"]
+def _fft(ctx, qs, quick):
+    # (depth, w) with n*w a multiple of 64; even and odd depths; the pairs mpn_mul_fft_main can produce from the shipped FFT_TABs
+    # depth 2 (n = 4) is what fits: the symbolic-start loops over the coefficient pointers cost 4 GB / 35-65 s per query there; depth 3 and
+    # above were measured out of reach (memory-out at 12 GB or no verdict in 300 s) and are outside the claim.  The parameter arithmetic
+    # is the same code for every depth; depth 2 is even, which is the parity where (n*w - (depth+1))/2 rounds.
+    pairs = [(2, 16), (2, 32)] if quick else [(2, 16), (2, 32), (2, 48), (2, 64)]
+    for d, w in pairs:
+        for sqr in (0, 1):
+            n = 1 << d
+            qs.append(Query("fftparam.mul_trunc_sqrt2.depth%d.w%d.sqr%d" % (d, w, sqr), "C01_fft_param.c", FFT_BASE,
+                            {"FN": 0, "DEPTH": d, "WW": w, "SQR": sqr}, unwind=4 * n + 3, timeout=300 if quick else 1500, variant="exact", domain="D-SHAPE",
+                            funcs=["fft/mul_trunc_sqrt2.c:mpn_mul_trunc_sqrt2"], stubs=FFT_STUBS, mem_gb=8))
 
 _q0 = queries
 def queries(ctx):
@@ -72,6 +90,7 @@ def queries(ctx):
         kw.setdefault("variant", "uf"); kw.setdefault("domain", "D-UF")
         qs.append(Query(name, h, units, defs, unwind=unwind, funcs=funcs, timeout=timeout if quick else 1500, **kw))
     _mpz(ctx, qs, add, quick)
+    _fft(ctx, qs, quick)
     return qs
 
 MANIFEST = {
